@@ -284,7 +284,7 @@ class Ctx:
                   assumptions=self.assumptions, wall_s=round(time.time() - self.t0, 1),
                   violations=len(self.violations),
                   known_findings_reobserved=sorted(k for k, v in self.known_hits.items() if v))
-        if not self.replay:
+        if not self.replay and os.path.realpath(REPO) == "/repo":   # evidence only ever describes runs against /repo itself
             os.makedirs(os.path.join(VERIF, "evidence"), exist_ok=True)
             with open(os.path.join(VERIF, "evidence", self.pid + ".json"), "w") as fh:
                 json.dump(ev, fh, indent=1, default=str)
